@@ -824,6 +824,33 @@ def comprehension(interp, st, node, kind):
             if not same:
                 raise Outside("filtered comprehension over a symbolic-length sequence whose element is not the item itself", node)
             return FiltList(fsrc, z3.Lambda([k], z3.And(k >= 0, k < to_z3(n), to_z3(g))))
+        if kind == "dict" and not gen.ifs:
+            # {key(x): value(x) for x in <symbolic-length sequence>} with string keys and integer values: a token -> id map.  A key is in the
+            # map iff some element produces it; its value is the one produced by the LAST such element (later entries overwrite earlier ones)
+            n = sym_len(interp, st, seq, node)
+            k = z3.Int(V.fresh_name("dk"))
+            st.guards.append(z3.And(k >= 0, k < to_z3(n)))
+            st.binders.append(k)
+            try:
+                interp.assign(gen.target, sym_item(interp, st, seq, k, node), st)
+                key_k = interp.ev(node.key, st)
+                val_k = interp.ev(node.value, st)
+            finally:
+                st.guards.pop()
+                st.binders.pop()
+            if isinstance(key_k, str):
+                key_k = z3.StringVal(key_k)
+            if not (is_sym(key_k) and key_k.sort() == z3.StringSort() and (isinstance(val_k, int) or (is_sym(val_k) and val_k.sort() == z3.IntSort()))):
+                raise Outside("dict comprehension over a symbolic-length sequence other than string -> int", node)
+            j, t = z3.Int(V.fresh_name("dj")), z3.String(V.fresh_name("dt"))
+            key_j = z3.substitute(key_k, (k, j))
+            nz = to_z3(n)
+            dom = z3.Lambda([t], z3.Exists([k], z3.And(k >= 0, k < nz, key_k == t)))
+            out = V.SDict.fresh("dictcomp")
+            st.assume(z3.ForAll([t], z3.Select(out.dom, t) == z3.Exists([k], z3.And(k >= 0, k < nz, key_k == t))))
+            last = z3.ForAll([j], z3.Implies(z3.And(j > k, j < nz), key_j != key_k))
+            st.assume(z3.ForAll([k], z3.Implies(z3.And(k >= 0, k < nz, last), z3.Select(out.val, key_k) == to_z3(val_k))))
+            return out
         if gen.ifs or kind in ("dict", "set"):
             spec = interp.ctx.registry.comprehension_spec(interp.ctx, node, st)
             if spec is not None:
